@@ -13,8 +13,10 @@ import (
 	"encoding/json"
 	"fmt"
 	"math"
+	"runtime"
 	"strconv"
 	"strings"
+	"sync"
 	"time"
 
 	"github.com/cgi-fr/jsonline/pkg/cast"
@@ -726,8 +728,57 @@ func genC12(cw *caseWriter, seed uint64, tier string) {
 		}
 	}
 	vals = append(vals, true, false)
+	// the float32 values whose shortest text is not read back exactly when it is first rounded to float64
+	// (double rounding): the only two finite ones (an exhaustive scan finds them)
+	vals = append(vals, math.Float32frombits(0x15ae43fd), math.Float32frombits(0x95ae43fd))
 	for _, v := range vals {
 		emitRT(cw, "ToString", v)
 		emitRT(cw, "ToNumber", v)
 	}
+	if tier != "thorough" {
+		return
+	}
+	// thorough: EVERY float32 bit pattern, rendered and read back by the implementation on all cores; only
+	// the patterns whose read-back differs (none, on a correct tree) become cases for the driver to judge
+	workers := runtime.NumCPU()
+	bad := make([][]uint32, workers)
+	var wg sync.WaitGroup
+	for w := 0; w < workers; w++ {
+		wg.Add(1)
+		go func(w int) {
+			defer wg.Done()
+			for b := uint64(w); b < 1<<32; b += uint64(workers) {
+				f := math.Float32frombits(uint32(b))
+				if f != f || math.IsInf(float64(f), 0) {
+					continue
+				}
+				for _, via := range []string{"ToString", "ToNumber"} {
+					res, err, pan := callCast(via, f)
+					if err != nil || pan != "" {
+						bad[w] = append(bad[w], uint32(b))
+						break
+					}
+					back, err2, pan2 := callCast("To:f32", res)
+					g, ok := back.(float32)
+					if err2 != nil || pan2 != "" || !ok || math.Float32bits(g) != uint32(b) {
+						bad[w] = append(bad[w], uint32(b))
+						break
+					}
+				}
+			}
+		}(w)
+	}
+	wg.Wait()
+	nbad := 0
+	for _, l := range bad {
+		for _, b := range l {
+			if nbad < 1000 {
+				emitRT(cw, "ToString", math.Float32frombits(b))
+				emitRT(cw, "ToNumber", math.Float32frombits(b))
+			}
+			nbad++
+		}
+	}
+	cw.extra["exhaustive_float32_patterns"] = true
+	cw.extra["float32_patterns_not_read_back"] = nbad
 }
